@@ -408,4 +408,47 @@ theorem segResident_ready (img : Bytes) (o : Obj) (hL : LoadedFrom img o) (hS : 
   have := h2.len a ha
   omega
 
+/-! ### header fields alone (used for sections of a truncated file, Props/ComposeTables.lean §3) -/
+
+/-- the ten header fields of `b` are the specification's fields of section header `i` of `img` -/
+structure Fields (img : Bytes) (i : Nat) (b : SecBuf) : Prop where
+  nameOff : b.nameOff.toNat = sh img i "sh_name"
+  stype : b.stype.toNat = sh img i "sh_type"
+  flags : b.flags.toNat = sh img i "sh_flags"
+  addr : b.addr.toNat = sh img i "sh_addr"
+  offset : b.offset.toNat = sh img i "sh_offset"
+  size : b.size.toNat = sh img i "sh_size"
+  link : b.link.toNat = sh img i "sh_link"
+  info : b.info.toNat = sh img i "sh_info"
+  addrAlign : b.addrAlign.toNat = sh img i "sh_addralign"
+  entSize : b.entSize.toNat = sh img i "sh_entsize"
+
+/-- a section of the complete load, in any residency state: its fields are the specification's and a
+    section that occupies no file space has no data -/
+theorem fields_of_SecSt (img : Bytes) (hwf : WellFormedImage img) (i : Nat) (hi : i < eh img "e_shnum")
+    (lz res : Bool) (nm : Bytes) (b : SecBuf)
+    (hb : SecSt (clsOf img) (encOf img) img (shBase img i) lz i res nm b) :
+    Fields img i b ∧ (occupiesFile (sh img i "sh_type") = false → b.data = none) := by
+  obtain ⟨_, hk, _, _⟩ := wf_sec img hwf i hi lz
+  obtain ⟨f1, f2, f3, f4, f5, f6, f7, f8, f9, f10⟩ :=
+    secHdr_bridge img (clsOf img) (encOf img) (shBase img i) lz i hk
+  obtain ⟨fd, L, hbe, _⟩ := hb
+  refine ⟨⟨by rw [hbe]; exact f1, by rw [hbe]; exact f2, by rw [hbe]; exact f3, by rw [hbe]; exact f4,
+    by rw [hbe]; exact f5, by rw [hbe]; exact f6, by rw [hbe]; exact f7, by rw [hbe]; exact f8,
+    by rw [hbe]; exact f9, by rw [hbe]; exact f10⟩, ?_⟩
+  intro ho
+  have hnn : isNullOrNobitsTy (secHdr (clsOf img) (encOf img) img (shBase img i) lz i).stype = true := by
+    rw [isNullOrNobits_eq, f2]
+    have : occupiesFile (Spec.get (Spec.shdrL (clsOf img)) (encOf img) img (shBase img i) "sh_type") = false := ho
+    rw [this]; rfl
+  rw [hbe]
+  cases res <;> simp [secData_ls, hnn]
+
+/-- `get_data()` never gives a SHT_NULL / SHT_NOBITS section data -/
+theorem secGetData_nobits_data (c : Cls) (tr : List Trans) (ls : LoadSt) (b : SecBuf)
+    (h : isNullOrNobitsTy b.stype = true) : (secGetData c tr ls b).2.data = b.data := by
+  rw [secGetData_eq, secLoadData_eq]
+  simp only [h, Bool.not_true, Bool.and_false, Bool.false_eq_true, if_false]
+  (repeat' split) <;> rfl
+
 end ElfioVerif.LoadedTables
